@@ -715,7 +715,42 @@ func extractResources(p *pkgs, f *facts) {
 		"stopClosesBrokerFirst", "brokerCloseClosesListeners", "serveDefersListenerClose", "muxerCloseClosesWrappedListener",
 		"acceptAndServeClosesListener", "acceptAndServeEndsOnBrokerDone", "brokeredListenerIsRmListener", "listenerRemovesFile"}
 	// (goSites is printed between these and the facts added later, in the order of the Lean structure)
-	orderTail := []string{"killCleanupWheneverRunner"}
+	// Client.unixSocketCfg is a VALUE field and Start fills it by copy (`c.unixSocketCfg = *c.config.UnixSocketConfig`)
+	{
+		valueField, copied := false, false
+		for _, file := range p.files {
+			ast.Inspect(file, func(n ast.Node) bool {
+				ts, ok := n.(*ast.TypeSpec)
+				if !ok || ts.Name.Name != "Client" {
+					return true
+				}
+				if st, ok := ts.Type.(*ast.StructType); ok {
+					for _, fl := range st.Fields.List {
+						for _, nm := range fl.Names {
+							if nm.Name == "unixSocketCfg" {
+								_, isIdent := fl.Type.(*ast.Ident)
+								valueField = isIdent
+							}
+						}
+					}
+				}
+				return false
+			})
+		}
+		if st := p.fn("Client", "Start"); st != nil {
+			n := 0
+			ast.Inspect(st.Body, func(m ast.Node) bool {
+				if as, ok := m.(*ast.AssignStmt); ok && len(as.Lhs) == 1 && len(as.Rhs) == 1 && exprString(as.Lhs[0]) == "c.unixSocketCfg" {
+					n++
+					copied = exprString(as.Rhs[0]) == "*c.config.UnixSocketConfig"
+				}
+				return true
+			})
+			copied = copied && n == 1
+		}
+		b["socketDirOwnedByClient"] = valueField && copied
+	}
+	orderTail := []string{"killCleanupWheneverRunner", "socketDirOwnedByClient"}
 	var fields []string
 	js := map[string]interface{}{}
 	for _, k := range order {
